@@ -28,13 +28,15 @@ def pools(cls, seed=0, md5_salt_len=4):
     r = seed % 7
     if cls == "text":
         return [("Xk3#vT9q" + "Zz"[: r % 2], "m@Lw_2Zr-8" + "Qp"[: (r + 1) % 2]),
-                ("p\\d+(a)*", "Z^.$|?yy")]
+                ("p\\d+(a)*", "Z^.$|?yy"),
+                # case variants of reserved words are not reserved words
+                ("Cisco", "Zebra7x"), ("PRIVATE", "qUIETLY9")]
     if cls == "text32":
         return [("cRr9m5bWF4D1P7EsGw53WWzWMO_xcvnY", "OzWcYvwcG19WW5bMr5mEn3DF7sRWPx_4")]
     if cls == "numeric":
         return [("4072", "918273645"), ("%d" % (31 + r), "5550199")]
     if cls == "hex":
-        return [("3fa9c1d", "BEEFCAFE77"), ("ABCDEF", "9e8d7c6b5a")]
+        return [("3fa9c1d", "BEEFCAFE77"), ("ABCDEF", "9e8d7c6b5a"), ("DAD", "3E7")]
     if cls == "type7":
         out = [(refs.type7_encode("hunter2", 8), refs.type7_encode("Tr0ub4dor&3", 3)),
                (refs.type7_encode("Zqj", 1), refs.type7_encode("zyxwv", 15))]
